@@ -1989,7 +1989,8 @@ class Generator:
     def dynamicidentifier_sql(self, expression: exp.DynamicIdentifier) -> str:
         this = expression.this
         if this and this.is_string:
-            resolved = maybe_parse(this.name).sql(self.dialect)
+            # Generated by this generator, so that what it can't support is reported at the caller's level
+            resolved = self.sql(maybe_parse(this.name))
             if "expressions" in expression.args:
                 # `IDENTIFIER(...)` invoked as a function, e.g. `IDENTIFIER('my_func')(1, 2)`
                 # We can't safely emit the call to other dialects since name/arg semantics may differ
